@@ -23,8 +23,9 @@ var c08xPhis = []string{"0.5", "0.9", "0.99", "0.95", "0", "1", "0.25", "0.99999
 
 type c08xGen struct {
 	mgen
-	changer func(r *h.Rng) string // a label-rewriting stage
-	filter  func(r *h.Rng) string // a filter placed after one
+	changer  func(r *h.Rng) string // a label-rewriting stage
+	filter   func(r *h.Rng) string // a filter placed after one
+	selector func(r *h.Rng) string // stream selector and plain stages (nil: genSelector)
 }
 
 func c08xDefaultGen(g mgen) c08xGen {
@@ -35,12 +36,21 @@ func c08xDefaultGen(g mgen) c08xGen {
 func c08xGenRange(r *h.Rng, g c08xGen) string {
 	kind := h.Pick(r, []string{"lra", "lra", "unwrap", "unwrap", "quantile"})
 	withStages := kind != "quantile" || r.Chance(65)
-	sel := genSelector(r, g.mgen, false)
+	sel := ""
+	if g.selector != nil {
+		sel = g.selector(r)
+	} else {
+		sel = genSelector(r, g.mgen, false)
+	}
 	if withStages {
 		m := r.Range(1, 4)
+		pc := 60
+		if g.simple {
+			m, pc = r.Range(1, 3), 72
+		}
 		hasChanger := false
 		for i := 0; i < m; i++ {
-			if r.Chance(60) || (i == m-1 && !hasChanger) {
+			if r.Chance(pc) || (i == m-1 && !hasChanger) {
 				sel += " " + g.changer(r)
 				hasChanger = true
 			} else {
@@ -420,4 +430,258 @@ func c08TextX(r *h.Result, rng *h.Rng, n int, g mgen) error {
 		}
 	}
 	return r.Compare("textx", ops, impl, cases)
+}
+
+// ---------------------------------------------------------------- semantic stream for the labelled path
+
+var c08xTokVals = map[string][]string{
+	"x":   {"1", "2.5", "10", "0", "n", "7"},
+	"lvl": {"e", "w"},
+	"n":   {"1", "2", "3", "4.5"},
+	"a":   {"b", "z"},
+	"m.k": {"5", "q"},
+}
+
+func c08xSemChanger(r *h.Rng) string {
+	switch r.Intn(10) {
+	case 0, 1, 2, 3:
+		n := r.Range(1, 2)
+		var ps []string
+		for i := 0; i < n; i++ {
+			lbl := h.Pick(r, []string{"x", "lvl", "n", "a", "app"})
+			path := h.Pick(r, []string{"x", "lvl", "n", "a", "m.k", "nope"})
+			if r.Chance(60) {
+				path = lbl
+			}
+			ps = append(ps, lbl+"="+q(path))
+		}
+		return "| json " + strings.Join(ps, ", ")
+	case 4, 5:
+		return "| regexp " + q(h.Pick(r, []string{"(?P<x>\\d+)", "(?P<lvl>[a-z]+) (?P<n>\\d+)", "(?P<n>.) (.*) (?P<x>\\w+)", "(?P<a>[a-z]+)"}))
+	default:
+		return "| drop " + h.Pick(r, []string{"a", "lvl", "x", "app, x", "a=\"b\"", "lvl=\"e\", job", "n", "level"})
+	}
+}
+
+func c08xSemFilter(r *h.Rng) string {
+	switch r.Intn(5) {
+	case 0:
+		return h.Pick(r, []string{"|=", "!=", "|~", "!~"}) + " " + q(h.Pick(r, []string{"e", "1", "x=", "lvl=e", "", "5", "="}))
+	case 1, 2:
+		k := h.Pick(r, []string{"lvl", "a", "app", "x", "n"})
+		vals := c08xTokVals[k]
+		if vals == nil {
+			vals = semLabelVals[k]
+		}
+		return "| " + k + h.Pick(r, []string{"=", "!=", "!=", "=~", "!~"}) + q(h.Pick(r, vals))
+	default:
+		return "| " + h.Pick(r, []string{"x", "n"}) + " " + h.Pick(r, []string{">", ">=", "<", "<=", "==", "!="}) + " " + h.Pick(r, []string{"1", "2", "2.5", "5"}) +
+			h.Pick(r, []string{"", "", " or lvl=\"e\"", " or a!=\"\""})
+	}
+}
+
+// genSemDBX: the databases of genSemDB with lines made of blank-separated name=value tokens (what the driver's toy
+// "document" and "capture" oracles read), sometimes a bare number (for `| unwrap _entry`) or plain text
+func genSemDBX(r *h.Rng, streams []semStream, c mctx, d int64) semDB {
+	db := genSemDB(r, streams, c, d)
+	db.Samples = nil
+	for i := range db.Rows {
+		switch k := r.Intn(10); {
+		case k < 8:
+			names := []string{"x", "lvl", "n", "a", "m.k"}
+			for j := len(names) - 1; j > 0; j-- {
+				m := r.Intn(j + 1)
+				names[j], names[m] = names[m], names[j]
+			}
+			var toks []string
+			for _, nm := range names[:r.Range(1, 4)] {
+				toks = append(toks, nm+"="+h.Pick(r, c08xTokVals[nm]))
+			}
+			db.Rows[i].Str = strings.Join(toks, " ")
+		case k == 8:
+			db.Rows[i].Str = h.Pick(r, []string{"5", "2.5", "0", "12"})
+		}
+		s := db.Rows[i]
+		db.Samples = append(db.Samples, fmt.Sprintf("%d:%d:%s:%d", s.FP, s.TS, hx(s.Str), s.Type))
+	}
+	return db
+}
+
+// c08xSemSelector: matchers satisfied by one of the streams (mostly), at most one plain stage
+func c08xSemSelector(streams []semStream) func(r *h.Rng) string {
+	return func(r *h.Rng) string {
+		st := h.Pick(r, streams)
+		var ms []string
+		for i, n := 0, r.Range(1, 2); i < n; i++ {
+			kv := h.Pick(r, st.Labels)
+			k, v, op := kv[0], kv[1], h.Pick(r, []string{"=", "=", "=~"})
+			if r.Chance(15) {
+				k = h.Pick(r, []string{"a", "app", "job", "level"})
+				v = h.Pick(r, semLabelVals[k])
+				op = h.Pick(r, []string{"=", "!=", "=~", "!~"})
+			}
+			ms = append(ms, k+op+q(v))
+		}
+		s := "{" + strings.Join(ms, ", ") + "}"
+		if r.Chance(35) {
+			switch r.Intn(3) {
+			case 0:
+				s += " " + h.Pick(r, []string{"|=", "!=", "|~", "!~"}) + " " + q(h.Pick(r, []string{"=", "e", "1", "x", "", "5", "lvl"}))
+			case 1:
+				k := h.Pick(r, []string{"app", "level", "job", "a"})
+				s += " | " + k + h.Pick(r, []string{"=", "!=", "!=", "=~"}) + q(h.Pick(r, semLabelVals[k]))
+			default:
+				s += " | x " + h.Pick(r, []string{">", ">=", "<", "<=", "==", "!="}) + " " + h.Pick(r, []string{"1", "2", "2.5", "5"})
+			}
+		}
+		return s
+	}
+}
+
+func c08xFeatures(s *logql_parser.LogQLScript) []string {
+	ra, agg, top := c08xRangeOf(s)
+	var f []string
+	kind := "lra"
+	if n := len(ra.sel.Pipelines); n > 0 && ra.sel.Pipelines[n-1].Unwrap != nil {
+		kind = "unwrap"
+	}
+	f = append(f, kind+":"+ra.fn)
+	for _, p := range ra.sel.Pipelines {
+		switch {
+		case p.Parser != nil:
+			f = append(f, p.Parser.Fn)
+		case p.Drop != nil:
+			f = append(f, "drop")
+		}
+	}
+	if top != nil {
+		f = append(f, top.Fn)
+	}
+	if agg != nil {
+		f = append(f, "agg:"+agg.Fn)
+		if agg.ByOrWithoutPrefix == nil && agg.ByOrWithoutSuffix == nil {
+			f = append(f, "agg-without-grouping")
+		}
+	}
+	seen := map[string]bool{}
+	var res []string
+	for _, x := range f {
+		if !seen[x] {
+			seen[x] = true
+			res = append(res, x)
+		}
+	}
+	return res
+}
+
+// c08SemX: Sql.evalSelA of the model plan (= the real planner's text, compared again for the very same case) against the
+// direct reading LogQL.evalMetricX, for the labelled path
+func c08SemX(r *h.Result, rng *h.Rng, n int) error {
+	r.Stream("semx: (query of the labelled path, context, small database with name=value lines) → Sql.evalSelA (LogQL.planMetricX) vs LogQL.evalMetricX in the Lean driver; the SQL text of the same case is compared with the real planner's; cases labelled by LogQL.supportedX (the class predicate of plan_metric_correct_ext)")
+	var ops, textOps, impl []string
+	var cases []map[string]any
+	var feats [][]string
+	for i := 0; i < n; i++ {
+		streams := genSemStreams(rng)
+		g := c08xGen{mgen: mgen{simple: true, streams: streams, extraFns: true}, changer: c08xSemChanger, filter: c08xSemFilter, selector: c08xSemSelector(streams)}
+		query := c08xGenQuery(rng, g)
+		probe, err := logql_parser.Parse(query)
+		if err != nil {
+			r.Count("semx:parse-error")
+			continue
+		}
+		ser, err := c08xSer(probe)
+		if err != nil {
+			r.Count("semx:outside-fragment")
+			continue
+		}
+		d := scriptDuration(probe)
+		c := genMCtx(rng, d)
+		c.Limit, c.Cluster = 0, false
+		if rng.Chance(92) {
+			c.Type = uint8(rng.Intn(2))
+		}
+		nb := int64(rng.Range(1, 4))
+		c.To = c.From + nb*d + int64(rng.Intn(3))*d/2
+		if rng.Chance(50) {
+			c.From = c.From / d * d
+			c.To = c.To/d*d + d
+		}
+		if c.Step > 16*d {
+			c.Step = 2 * d
+		}
+		sqlText, _, err := c08xImplSQL(query, c)
+		if err != nil {
+			r.Count("semx:impl-error")
+			continue
+		}
+		db := genSemDBX(rng, streams, c, d)
+		ops = append(ops, "c08semx "+c.ser()+" "+ser+" "+db.ser())
+		textOps = append(textOps, "c08planx "+c.ser()+" "+ser)
+		impl = append(impl, h.Hex([]byte(sqlText)))
+		cases = append(cases, map[string]any{"query": query, "ctx": c, "db": db, "sql": sqlText, "model_op": ops[len(ops)-1], "dur": d})
+		feats = append(feats, c08xFeatures(probe))
+	}
+	if err := r.Compare("semx-text", textOps, impl, nil); err != nil {
+		return err
+	}
+	ans, err := h.Model(ops)
+	if err != nil {
+		return err
+	}
+	for i, a := range ans {
+		f := feats[i]
+		fields := strings.Fields(a)
+		if len(fields) < 4 {
+			return fmt.Errorf("c08semx: model answered %q for %v", a, ops[i])
+		}
+		class, stages := fields[len(fields)-2], fields[len(fields)-1]
+		r.Count("semx:class:" + class)
+		proved := strings.HasPrefix(class, "proved-ext:")
+		if proved {
+			r.Count("semx:proved")
+			if ns, _ := strconv.Atoi(stages); ns >= 3 {
+				r.Count("semx:proved:stages>=3")
+			}
+			if c := cases[i]["ctx"].(mctx); c.Step > scriptDurationOf(cases[i]) {
+				r.Count("semx:proved:step>range")
+			}
+			for _, x := range f {
+				r.Count("semx:proved:" + x)
+			}
+		} else {
+			r.Count("semx:searched")
+		}
+		switch {
+		case fields[0] == "ok" && len(fields) == 4:
+			rows := fields[1]
+			r.Case("semx:"+fmt.Sprint(cases[i]["query"], cases[i]["ctx"], i), rows != "0")
+			if rows == "0" {
+				r.Count("semx:empty-result")
+			} else {
+				r.Count("semx:non-empty-result")
+				if proved {
+					r.Count("semx:proved:non-empty-result")
+				}
+			}
+		case fields[0] == "diff" && len(fields) == 5:
+			cases[i]["sql_rows"] = string(h.UnHex(fields[1]))
+			cases[i]["direct_reading"] = string(h.UnHex(fields[2]))
+			cases[i]["class"] = class
+			r.Case("semx:"+fmt.Sprint(cases[i]["query"], cases[i]["ctx"], i), true)
+			key := "C08/sql-differs-from-direct-reading-x:" + strings.Join(f, ",")
+			if isIn("agg-without-grouping", f) {
+				key = "C08/agg-without-grouping-keeps-streams"
+			}
+			if proved {
+				// cannot happen while the theorem and the driver are built from the same definitions
+				key = "C08/proved-class-differs:" + class
+			}
+			r.Violate(key, "rows of the generated SQL (Sql.evalSelA of the model plan = the real planner's text) differ from the direct reading of "+fmt.Sprint(cases[i]["query"]), cases[i])
+			r.Count("semx:mismatch")
+		default:
+			return fmt.Errorf("c08semx: model answered %q for %v", a, ops[i])
+		}
+	}
+	return nil
 }
